@@ -233,6 +233,15 @@ def run(prog, tier) -> Result:
     ten_minus_n = RF.const(10).pow_sym((0, -1))
     cr.run("R08.2b", mnu, "minor_unit given", nu_setup(Nn, None), judge_nu(ten_minus_n))
     cr.run("R08.2b", mnu, "defaults", nu_setup(None, None), judge_nu(RF.const(Fraction(1, 100))))
+    # every number of minor units that occurs in ISO 4217 (0: JPY, 2, 3: KWD, 4: CLF) is accepted and gives 10^-k;
+    # a negative one is rejected
+    for k in (0, 1, 2, 3, 4):
+        def judge_k(o, k=k):
+            if o.kind == "raise" and str(getattr(o.exc, "where", "")).startswith("MoneyMeta.new_unit"):
+                return ("valid number of minor units rejected", f"minor_unit={k}: {exc_sig(o)}")
+            return judge_nu(RF.const(Fraction(1, 10 ** k)))(o)
+        cr.run("R08.2b", mnu, f"minor_unit = {k}", nu_setup(Num(RF.const(k), "int"), None), judge_k)
+    cr.run("R08.4", mnu, "minor_unit = -1", nu_setup(Num(RF.const(-1), "int"), None), lambda o: expect_raise(o, ["ValueError"]))
     cr.run("R08.4", mnu, "smallest_fraction given", nu_setup(None, Num(RF.atom(("k", "sf")), "dec")),
            judge_nu(RF.atom(("k", "sf"))))
     cr.run("R08.4", mnu, "both given", nu_setup(Nn, Num(RF.atom(("k", "sf")), "dec")), judge_nu(RF.atom(("k", "sf"))))
